@@ -111,7 +111,8 @@ class SimSpec:
             "status_queries_failed_by_injection": sum(sum(1 for f in (r.get("faults") or []) if f and f[0] == "squeue_fail") for r in ok),
             "scenarios_with_a_resubmission": sum(1 for t in tasks if (t["args"]["scen"].get("resubmit") or {}).get("rounds")),
             "resubmissions_with_changed_group_parameters": sum(1 for t in tasks for rd in (t["args"]["scen"].get("resubmit") or {}).get("rounds", []) if rd.get("groups")),
-            "scenarios_with_parameters_given_as_submit_jobs_options": sum(1 for t in tasks if t["args"]["scen"].get("cli_params")),
+            "scenarios_with_parameters_given_as_submit_jobs_options": sum(1 for t in tasks if t["args"]["scen"].get("cli_params") is True),
+            "scenarios_with_parameters_given_in_a_submitter_params_file": sum(1 for t in tasks if t["args"]["scen"].get("cli_params") == "file"),
             "scenarios_without_distributed_submitter": sum(1 for t in tasks if any(not g.get("dsub", True) for g in t["args"]["scen"]["groups"])),
             "scenarios_with_glob_metacharacters_in_the_output_directory": sum(1 for t in tasks if any(ch in (t["args"]["scen"].get("outname") or "") for ch in "[]*?{}")),
             "scenarios_with_a_held_slow_blocker": sum(1 for t in tasks if t["args"]["scen"].get("hold_job")),
